@@ -262,6 +262,10 @@ pub struct RoundSpec {
     pub seed: Vec<Value>,
     /// requests: [{op, argk | arg, lvl}], all for client 1 unless "c" says otherwise
     pub reqs: Vec<Value>,
+    /// I/O-level fault (LD_PRELOAD shim): (call number counted from the start of the round, errno, persist, after)
+    pub iofault: Option<(i64, i32, bool, bool)>,
+    /// requests executed one after the other once the round is over (same storage)
+    pub follow: Vec<Value>,
 }
 
 pub struct RoundResult {
@@ -295,11 +299,12 @@ pub fn run_round(spec: &RoundSpec, policy: Policy, faults: Vec<(usize, usize, De
     for (i, s) in spec.seed.iter().enumerate() {
         let mut s2 = s.clone();
         // the seed script uses the HTTP meaning of AddVersion (create the client if absent)
-        if s2["op"] == "AddVersion" && !seedr.last.first().map(|d| d.e).unwrap_or(false) {
-            seedr.step(&json!({"op": "NewClient", "c": 1}), i);
-        }
         if s2.get("c").is_none() {
             s2["c"] = json!(1);
+        }
+        let sc = s2["c"].as_i64().unwrap_or(1);
+        if s2["op"] == "AddVersion" && !seedr.last.get((sc - 1) as usize).map(|d| d.e).unwrap_or(false) {
+            seedr.step(&json!({"op": "NewClient", "c": sc}), i);
         }
         let (ev, _) = seedr.step(&s2, i);
         if ev.get("toolerr").is_some() {
@@ -382,6 +387,16 @@ pub fn run_round(spec: &RoundSpec, policy: Policy, faults: Vec<(usize, usize, De
         handles.insert(rid, h);
     };
 
+    let mut io_before = 0i64;
+    if crate::shimapi::present() {
+        crate::shimapi::io_reset();
+        io_before = crate::shimapi::io_count();
+        if let Some((at, errno, persist, after)) = spec.iofault {
+            crate::shimapi::io_fail(at, errno, persist, after);
+        }
+    } else if spec.iofault.is_some() {
+        anyhow::bail!("I/O fault requested but the shim is not loaded");
+    }
     let grace = Duration::from_millis(if spec.backend == "sqlite" { 25 } else { 8 });
     let long = Duration::from_secs(3);
     let mut started: HashSet<usize> = HashSet::new();
@@ -558,8 +573,25 @@ pub fn run_round(spec: &RoundSpec, policy: Policy, faults: Vec<(usize, usize, De
         }
         resps.push(rj);
     }
+    let iocount = if crate::shimapi::present() { crate::shimapi::io_count() - io_before } else { -1 };
+    if crate::shimapi::present() {
+        crate::shimapi::io_reset(); // disarm before observing
+    }
     let fin = seedr.dump();
     let final_state = Runner::st_json(&fin);
+    // follow-up requests: served normally?
+    let mut follow: Vec<Value> = vec![];
+    for (i, f) in spec.follow.iter().enumerate() {
+        let mut f2 = f.clone();
+        if f2.get("c").is_none() {
+            f2["c"] = json!(1);
+        }
+        let (ev, _) = seedr.step(&f2, 1000 + i);
+        let c = (f2["c"].as_i64().unwrap_or(1) - 1) as usize;
+        let vid = if ev["resp"]["kind"] == "ok" { ev["resp"]["vid"].clone() } else { json!(0) };
+        follow.push(json!({"req": {"op": ev["req"]["op"], "c": 1, "arg": ev["req"]["arg"], "lvl": "lib", "tok": ev["req"]["tok"], "vid": vid},
+                           "resp": ev["resp"], "st": ev["st"][c]}));
+    }
     // real-time order: r DONE before s START
     let pos = |rid: usize, tag: &str| log.iter().find(|e| e.1 == rid && e.2 == tag).map(|e| e.0);
     let mut before: Vec<Value> = vec![];
@@ -584,6 +616,10 @@ pub fn run_round(spec: &RoundSpec, policy: Policy, faults: Vec<(usize, usize, De
         "log": calls, "nfaults": faults.len(),
         "faults": faults.iter().map(|f| json!([f.0, f.1, format!("{:?}", f.2)])).collect::<Vec<_>>(),
         "timeouts": timeouts.iter().collect::<Vec<_>>(),
+        "iocount": iocount,
+        "iofault": spec.iofault.map(|f| json!({"at": f.0, "errno": f.1, "persist": f.2, "after": f.3})).unwrap_or(json!({"at": 0, "errno": 0, "persist": false, "after": false})),
+        "faulted": !faults.is_empty() || spec.iofault.is_some(),
+        "follow": follow,
     });
     seedr.cleanup();
     Ok(RoundResult { event, decisions })
@@ -598,6 +634,10 @@ fn spec_of(j: &Value) -> RoundSpec {
         versions: j["cfg"]["versions"].as_u64().unwrap_or(100) as u32,
         seed: j["seed"].as_array().cloned().unwrap_or_default(),
         reqs: j["reqs"].as_array().cloned().unwrap_or_default(),
+        iofault: j.get("iofault").filter(|f| f.is_object()).map(|f| {
+            (f["at"].as_i64().unwrap_or(1), f["errno"].as_i64().unwrap_or(5) as i32, f["persist"].as_bool().unwrap_or(false), f["after"].as_bool().unwrap_or(false))
+        }),
+        follow: j["follow"].as_array().cloned().unwrap_or_default(),
     }
 }
 
@@ -651,6 +691,57 @@ pub fn run(plan_path: &str, out_path: &str) -> anyhow::Result<i32> {
                 run_id += 1;
                 rounds += 1;
                 per_job.push(json!({"id": j["id"], "rounds": 1}));
+            }
+            "sweep" => {
+                // C05: every storage call (trait level) and every I/O call (shim level) of ONE request fails once
+                let mut spec = spec;
+                let probe = run_round(&spec, Policy::Prefix(&[]), vec![], run_id, &scratch)?;
+                let ngates = probe.decisions.len();
+                let nio = probe.event["iocount"].as_i64().unwrap_or(-1);
+                emit(probe, json!({"sweep": "probe"}), &mut w)?;
+                run_id += 1;
+                let mut n = 1usize;
+                let io_stride = j["io_stride"].as_i64().unwrap_or(1).max(1);
+                for k in 0..ngates {
+                    for d in [Decision::FailBefore, Decision::FailAfter] {
+                        let r = run_round(&spec, Policy::Prefix(&[]), vec![(1, k, d)], run_id, &scratch)?;
+                        emit(r, json!({"sweep": "trait", "gate": k, "when": format!("{d:?}")}), &mut w)?;
+                        run_id += 1;
+                        n += 1;
+                    }
+                }
+                if spec.backend == "sqlite" && nio > 0 {
+                    let variants: Vec<(i32, bool, bool)> = match j["io_variants"].as_str() {
+                        Some("full") => vec![(5, false, false), (28, false, false), (5, true, false), (5, false, true)],
+                        _ => vec![(5, false, false), (28, true, false)],
+                    };
+                    let mut k = 1;
+                    while k <= nio {
+                        for (errno, persist, after) in variants.iter() {
+                            spec.iofault = Some((k, *errno, *persist, *after));
+                            let r = run_round(&spec, Policy::Prefix(&[]), vec![], run_id, &scratch)?;
+                            emit(r, json!({"sweep": "io", "at": k, "errno": errno, "persist": persist, "after": after}), &mut w)?;
+                            run_id += 1;
+                            n += 1;
+                        }
+                        k += io_stride;
+                    }
+                    // double faults: a trait-level fault plus an I/O fault on the error path
+                    if j["double"].as_bool().unwrap_or(false) {
+                        for k in 0..ngates {
+                            for io in [1i64, 2, 3, 5, 8] {
+                                spec.iofault = Some((io, 5, false, false));
+                                let r = run_round(&spec, Policy::Prefix(&[]), vec![(1, k, Decision::FailBefore)], run_id, &scratch)?;
+                                emit(r, json!({"sweep": "double", "gate": k, "io": io}), &mut w)?;
+                                run_id += 1;
+                                n += 1;
+                            }
+                        }
+                    }
+                    spec.iofault = None;
+                }
+                rounds += n as i64;
+                per_job.push(json!({"id": j["id"], "rounds": n, "gates": ngates, "iocalls": nio}));
             }
             "dfs" => {
                 // bounded-exhaustive stateless exploration at gate granularity
